@@ -71,6 +71,10 @@ impl<T> RcDeref for MutArc<T> {
 
   #[inline]
   fn rc_deref(&self) -> Self::Ref<'_> {
+    #[cfg(feature = "verif_hooks")]
+    if let Some(guard) = crate::verif_hooks::lock(&self.0) {
+      return guard;
+    }
     self.0.lock().unwrap()
   }
 }
@@ -91,6 +95,10 @@ impl<T> RcDerefMut for MutArc<T> {
 
   #[inline]
   fn rc_deref_mut(&self) -> Self::MutRef<'_> {
+    #[cfg(feature = "verif_hooks")]
+    if let Some(guard) = crate::verif_hooks::lock(&self.0) {
+      return guard;
+    }
     self.0.lock().unwrap()
   }
 }
